@@ -5,11 +5,12 @@
    (2) the one-layer and the two-layer schedules agree on the contract-defined outputs for all
    sizes up to 32, all truncations; (3) untruncated they agree on all outputs.
    General theorems: C03_mul_all_engines (kernels), C03_fft_untruncated, C03_fft_truncated and
-   C03_ifft_truncated (schedules: any element type, size, truncation). *)
+   C03_ifft_truncated (schedules: any element type, size, truncation); end to end on codec objects:
+   C03_api_encode, C03_api_decode (any engines, any contents of the shards). *)
 From Coq Require Import NArith Bool List Lia.
 From RS.Gen Require Import Prelude GenConsts.
-From RS.Model Require Import Field Tables Sched Layout Kernels.
-From RS.Proofs Require Import FieldFacts Param Linear SchedEquiv Trunc KernelFacts.
+From RS.Model Require Import Field Tables Sched Codec Layout Machine Kernels.
+From RS.Proofs Require Import FieldFacts Param Linear FftSpec SchedEquiv Trunc KernelFacts PermFacts MachineOps MachineLin EngineIndep.
 Import ListNotations.
 Local Open Scope N_scope.
 
@@ -65,6 +66,47 @@ Print Assumptions C03_ifft_truncated.
 (* the element types of the model satisfy the side condition *)
 Theorem C03_ops_zero : ops_zero sym_ops /\ forall n, ops_zero (shard_ops n).
 Proof. split; [exact sym_ops_zero|exact shard_ops_zero]. Qed.
+
+(* ---- end to end, on codec objects ---- *)
+(* encode: two encoders of the same codec and configuration on ANY two engines (and any recycled working
+   spaces, stale memories, epochs) return the same recovery shards for the same originals *)
+Theorem C03_api_encode : forall (junk1 junk2 : N -> N -> N -> N),
+  (forall a b c, junk1 a b c < 65536) -> (forall a b c, junk2 a b c < 65536) ->
+  forall (c : codec) (e1 e2 : engine) (K R sb ep1 ep2 : N) (o : list bytes),
+  validateb c K R sb = None -> N.of_nat (length o) = K -> Forall (byteshard sb) o ->
+  forall (w1 w2 : encwork) (x01 x1 x02 x2 : encoder) (a1 a2 : bool),
+  enc_make c e1 K R sb w1 = inl (x01, a1) -> enc_add_all x01 o = inl x1 ->
+  enc_make c e2 K R sb w2 = inl (x02, a2) -> enc_add_all x02 o = inl x2 ->
+  forall j, j < R ->
+  nth (N.to_nat j) (encode_shards junk1 ep1 x1) [] = nth (N.to_nat j) (encode_shards junk2 ep2 x2) [].
+Proof. exact ops_encode_engines. Qed.
+Print Assumptions C03_api_encode.
+
+(* decode: the same construction and the same accepted adds - shards with ARBITRARY contents, codewords
+   or not - on any two engines: decode() returns the same result (same restored shards, same probes) *)
+Theorem C03_api_decode : forall junk c e1 e2 K R sb w y1 a1 adds z1 ep probes,
+  dec_make c e1 K R sb w = inl (y1, a1) -> dec_adds y1 adds = inl z1 ->
+  exists y2 z2, dec_make c e2 K R sb w = inl (y2, a1) /\ dec_adds y2 adds = inl z2 /\
+  snd (dec_decode junk ep z2 probes) = snd (dec_decode junk ep z1 probes).
+Proof. exact ops_decode_engines. Qed.
+Print Assumptions C03_api_decode.
+
+(* the decoders themselves, any element type: below the truncation point (all that is read back)
+   the work vector after decoding does not depend on the engine *)
+Theorem C03_decode_high : forall T (ops : elt_ops T), ops_zero ops -> forall e1 e2 K R recv kn (work : list T),
+  (kn <= 16)%nat -> length work = p2 kn -> np2 R + K <= 2 ^ N.of_nat kn ->
+  length (eval_poly (high_erasures K R recv) (np2 R + K)) = N.to_nat 65536 ->
+  forall i, N.of_nat i < np2 R + K ->
+  nth_error (snd (decode_high_work ops e1 K R recv work)) i = nth_error (snd (decode_high_work ops e2 K R recv work)) i.
+Proof. exact @decode_high_engines. Qed.
+Print Assumptions C03_decode_high.
+Theorem C03_decode_low : forall T (ops : elt_ops T), ops_zero ops -> forall e1 e2 K R recv kn (work : list T),
+  (kn <= 16)%nat -> length work = p2 kn -> np2 K + R <= 2 ^ N.of_nat kn ->
+  length (eval_poly (low_erasures K R recv) GF_ORDER) = N.to_nat 65536 ->
+  forall i, N.of_nat i < np2 K + R ->
+  nth_error (snd (decode_low_work ops e1 K R recv work)) i = nth_error (snd (decode_low_work ops e2 K R recv work)) i.
+Proof. exact @decode_low_engines. Qed.
+Print Assumptions C03_decode_low.
 
 Theorem C03_mul_instances :
   forallb (fun m => forallb (fun b => forallb (fun e => leq (mul_block e m b) (spec_mul_block m b)) engines) blocks)
